@@ -279,7 +279,7 @@ class Run(RunBase):
         self._check_unchanged(op, outcome)
         if op.get("export_after"):
             self._check_export(op, op["export_after"])
-        self.note_state([op["op"], op.get("what", ""), str(outcome)[:20]])
+        self.note_state([op["op"], op.get("what", op.get("fmt", "")), str(outcome)[:20], self.source, self.features])
         return outcome if isinstance(outcome, dict) else "ok"
 
     def _ob(self, oid):
@@ -356,6 +356,19 @@ class Run(RunBase):
         elif w == "light":
             for lt in net.traffic_lights:
                 lt.get_state_at_time_step(op["t"])
+        elif w == "sign_interpreter":
+            from commonroad.scenario.traffic_sign_interpreter import TrafficSignInterpreter
+            from commonroad.scenario.traffic_sign import SupportedTrafficSignCountry
+
+            ti = TrafficSignInterpreter(SupportedTrafficSignCountry.GERMANY, net)
+            ids = frozenset(x.lanelet_id for x in net.lanelets)
+            ti.speed_limit(ids), ti.required_speed(ids)
+        elif w == "merge_pair":
+            for x in net.lanelets:
+                for sid in x.successor:
+                    y = net.find_lanelet_by_id(sid)
+                    if y is not None:
+                        type(x).merge_lanelets(x, y)
         elif w == "lookups":
             net.map_inc_lanelets_to_intersections, net.lanelet_polygons  # noqa
             for s in net.traffic_signs:
@@ -497,7 +510,7 @@ def _inspector(rng, run, cfg):
         elif k == "q_network" and lan:
             what = rng.pick(["by_position", "by_shape", "distance", "interpolate", "polygon", "successors",
                              "merge_successors", "proximity", "map_obstacles", "most_likely", "contains", "orientation",
-                             "light", "lookups"])
+                             "light", "lookups", "sign_interpreter", "merge_pair"])
             op = {"op": k, "what": what, "lanelet": rng.pick(lan), "t": rng.randint(0, 20),
                   "range": rng.uniform(1.0, 60.0), "s": rng.uniform(0.0, 1.0),
                   "pts": [[rng.uniform(-60, 60), rng.uniform(-60, 60)] for _ in range(rng.randint(2, 4))]}
